@@ -1,5 +1,5 @@
 HOOK_COMMITS = ["69b5feac", "e0ac4262", "25d0ef61", "e48a585e", "6bb38e96"]
-FIX_COMMITS = ["1d9ec378", "304105e7", "df3a2e6c", "f7361866", "4009b9f0", "f51e7edb", "ccff1f53", "d86e4171", "5461825f", "eb1c672c", "18c59c44", "814903cd", "e65909a8", "54e4999c", "ce5ab177", "0593a161"]
+FIX_COMMITS = ["1d9ec378", "304105e7", "df3a2e6c", "f7361866", "4009b9f0", "f51e7edb", "ccff1f53", "d86e4171", "5461825f", "eb1c672c", "18c59c44", "814903cd", "e65909a8", "54e4999c", "ce5ab177", "0593a161", "b1ee6dd3"]
 ENGINES = [
     {"name": "tlc+harness", "path": "/verif/bin/check", "serves_properties": ["C01", "C02", "C04", "C05", "C06", "C07", "C08", "C09", "C10", "C11", "C12", "C13", "C14", "C15", "C16", "C17", "C18", "C19", "C20", "C03"],
      "kind_free_text": "explicit TLA+ specification (spec/*.tla) checked with TLC; bound to the Rust code by a harness crate "
